@@ -287,6 +287,21 @@ func c07CellsFor(s *skeleton, withFixed bool) []c07Cell {
 				add(fmt.Sprintf("no-new/D%d", d), map[int]string{d: "x, y := 1, 2\nx, y := 3, 4"}, false)
 			}
 		}
+		// a name used inside its own definition (initialiser, loop header, ranged expression): not yet visible there
+		for sk, st := range map[string]string{
+			"short":       "x := x + 1",
+			"var":         "var x int = x",
+			"multi-cross": "x, y := 1, x",
+			"slice-lit":   "x := []int{x}",
+			"for-init":    "for x := x; x < 1; x++ {\n}",
+			"for-init-2":  "for x := 0 + x; x < 1; x++ {\n}",
+			"range-index": "q := []string{\"a\"}\nfor x, v := range q[x] {\n}",
+			"range-value": "q := []string{\"a\"}\nfor i, x := range q[len(x)] {\n}",
+			"range-both":  "q := []string{\"a\"}\nfor x, v := range q[len(v)] {\n}",
+			"len-of-self": "x := len(x)",
+		} {
+			add(fmt.Sprintf("undefined/self-reference/%s/U%d", sk, d), map[int]string{d: st}, false)
+		}
 		// use without any definition
 		add(fmt.Sprintf("undefined/read/U%d", d), map[int]string{d: "print(x)"}, false)
 		add(fmt.Sprintf("undefined/assign/U%d", d), map[int]string{d: "x = 1"}, false)
@@ -384,7 +399,7 @@ func c07CellsFor(s *skeleton, withFixed bool) []c07Cell {
 		cells = append(cells, c07Cell{key: "fixed/" + f.key, src: f.src, expect: e})
 	}
 	// import boundary
-	lib := "func priv() int {\n\treturn 1\n}\nfunc Pub() int {\n\treturn priv() + 1\n}\nfunc PubVoid() {\n}\n"
+	lib := "Shown := 7\nhidden := 6\n_Under := 5\nfunc priv() int {\n\treturn 1\n}\nfunc _secret() int {\n\treturn 2\n}\nfunc _Secret() int {\n\treturn 3\n}\nfunc pRIV() int {\n\treturn 4\n}\nfunc x9() int {\n\treturn 5\n}\nfunc Pub() int {\n\treturn priv() + _secret() + _Secret() + pRIV() + x9() + hidden + _Under + Shown\n}\nfunc PubVoid() {\n}\n"
 	for u := 0; u < n; u++ {
 		for _, uc := range []struct {
 			name, text string
@@ -393,6 +408,16 @@ func c07CellsFor(s *skeleton, withFixed bool) []c07Cell {
 			{"public", "print(m.Pub())", true},
 			{"public-void", "m.PubVoid()", true},
 			{"private", "print(m.priv())", false},
+			{"private-underscore", "print(m._secret())", false},
+			{"private-underscore-upper", "print(m._Secret())", false},
+			{"private-lower-then-upper", "print(m.pRIV())", false},
+			{"private-letter-digit", "print(m.x9())", false},
+			{"private-as-statement", "m._secret()", false},
+			{"private-unqualified", "print(priv())", false},
+			{"private-underscore-unqualified", "print(_secret())", false},
+			{"private-global-unqualified", "print(hidden)", false},
+			{"private-underscore-global-unqualified", "print(_Under)", false},
+			{"public-global-unqualified", "print(Shown)", false},
 			{"missing", "m.Missing()", false},
 			{"unknown-alias", "zz.Pub()", false},
 			{"no-alias", "print(Pub())", false},
